@@ -411,3 +411,33 @@ package contracts
 //@   trusted
 //@   pure
 //@   ensures err == nil ==> w != nil
+
+//@ -- deadlines: ghost record of the last deadline call that reached a connection: which connection, which direction
+//@ -- (1 read, 2 write, 3 both) and the instant
+//@ ghost var dlConn net.Conn
+//@ ghost var dlKind int
+//@ ghost var dlTime time.Time
+//@ func net.Conn.SetReadDeadline :: c, t -> err
+//@   trusted
+//@   assigns dlConn, dlKind, dlTime
+//@   ensures dlConn == c && dlKind == 1 && dlTime == t
+//@ func net.Conn.SetWriteDeadline :: c, t -> err
+//@   trusted
+//@   assigns dlConn, dlKind, dlTime
+//@   ensures dlConn == c && dlKind == 2 && dlTime == t
+//@ func net.Conn.SetDeadline :: c, t -> err
+//@   trusted
+//@   assigns dlConn, dlKind, dlTime
+//@   ensures dlConn == c && dlKind == 3 && dlTime == t
+//@ func tls.(*Conn).SetReadDeadline :: c, t -> err
+//@   trusted
+//@   assigns dlConn, dlKind, dlTime
+//@   ensures isptr(tls.Conn, dlConn) && unboxptr(tls.Conn, dlConn) == c && dlKind == 1 && dlTime == t
+//@ func tls.(*Conn).SetWriteDeadline :: c, t -> err
+//@   trusted
+//@   assigns dlConn, dlKind, dlTime
+//@   ensures isptr(tls.Conn, dlConn) && unboxptr(tls.Conn, dlConn) == c && dlKind == 2 && dlTime == t
+//@ func tls.(*Conn).SetDeadline :: c, t -> err
+//@   trusted
+//@   assigns dlConn, dlKind, dlTime
+//@   ensures isptr(tls.Conn, dlConn) && unboxptr(tls.Conn, dlConn) == c && dlKind == 3 && dlTime == t
